@@ -1302,7 +1302,9 @@ func (fr *Frame) step(st *State, in ssa.Instruction) bool {
 		var r *Term
 		if !x.Heap {
 			r = f.Var(fr.localName(x), SInt)
-			ex.assumes = append(ex.assumes, f.Gt(r, f.Int(0)))
+			// a local variable comes into being after the verified function was entered: it is none of the
+			// objects that existed then (A0 is the allocation frontier at entry)
+			ex.assumes = append(ex.assumes, f.Gt(r, f.Int(0)), f.Ge(r, f.Var("A0", SInt)))
 		} else {
 			r = ex.alloc(st)
 			ex.assume(st, f.Gt(r, f.Int(0)))
@@ -1330,6 +1332,9 @@ func (fr *Frame) step(st *State, in ssa.Instruction) bool {
 			// field of an opaque (non-lava) struct
 			s := types.Unalias(pt).Underlying().(*types.Struct)
 			fr.env[x] = f.App("ofaddr."+sanitize(typeFullName(pt))+"."+fieldName(s, x.Field), SInt, base)
+			// a field lies inside its object: its address is not below the object's (so a field of an object
+			// allocated after some point is itself newer than that point)
+			ex.assume(st, f.Ge(fr.env[x], base))
 		}
 	case *ssa.Field:
 		v := fr.val(x.X)
